@@ -11,6 +11,11 @@
 //	             (z v)  Sensitive      (t xSOURCE xNAME param*)  a Type: SOURCE is parsed here, (NAME, params) = (Name(), Parameters()) is
 //	             what the model formats (checked against the parsed type by the predicate type-decomposition)
 //	             (o xTYPENAME (k v)*)  an instance of an object type of the catalogue with that init hash
+//	             (j xSOURCE t|f (xKEY v)*)  an object type in a context with the property `expanded` (ctx xkind / xmap): a container there,
+//	             written expanded from its init hash (which holds its name) unless it is the default Object type (flag t)
+//	ctx (xkind xDIRECTIVE) / (xmap (KEY FMT)*): as kind / map, the context carrying the property expanded = true (what px.ToString2(v,
+//	             types.Expanded) and String() of an object type use); values then hold (j …) wherever an object type occurs outside the
+//	             init hash of another one
 //	             (l xSOURCE xNAME RESOLVED)  a type alias used as a value (RESOLVED: its resolved type as a value, name only)
 //	             (q xSOURCE xNAME (xKEY v)*)  an object type used as a value; NAME = "" for an anonymous one, then with the entries of
 //	             its init hash (InitHash(): what basicTypeToString writes)
@@ -214,6 +219,7 @@ var documentedDoc = map[string]string{
 	"t": "sp",
 	"o": "hasp",
 	"q": "sp",
+	"j": "sp",
 	"l": letters, // a type alias writes its name whatever the format says
 	"n": letters, // Timespan, Timestamp and Sensitive ignore the format altogether
 	"m": letters,
@@ -313,7 +319,7 @@ func valOf(e sx.Sexp) px.Value {
 		return types.WrapTimestamp(time.Unix(a[0].MustInt(), a[1].MustInt()).UTC())
 	case "z":
 		return types.WrapSensitive(valOf(a[0]))
-	case "t", "l", "q":
+	case "t", "l", "q", "j":
 		ensureCatalogue(curCtx)
 		return curCtx.ParseType(a[0].MustStr())
 	case "o":
@@ -337,6 +343,17 @@ const anonymousObjectType = `Object[{attributes => {a => Any, b => {type => Any,
 
 // the context of the op being executed (type sources and object instances are built inside it)
 var curCtx px.Context
+
+// the properties of the format contexts of the op being executed (nil, or expanded = true for ctx xkind / xmap)
+var curProps map[string]string
+
+// newCtx1: px.NewFormatContext(t, f, ind), with the properties of the op
+func newCtx1(t px.Type, f px.Format, ind px.Indentation) px.FormatContext {
+	if curProps == nil {
+		return px.NewFormatContext(t, f, ind)
+	}
+	return px.NewFormatContext2(ind, px.FormatMap(types.WrapHash([]*types.HashEntry{types.WrapHashEntry(t, f)})), curProps)
+}
 
 // the object types whose instances the ops format
 var catalogue = []string{
@@ -366,10 +383,10 @@ func entriesOfValue(e sx.Sexp) []sx.Sexp {
 }
 
 // Array, Hash and object instances (isContainer in types/arraytype.go)
-func isContainerTag(t string) bool { return t == "a" || t == "h" || t == "o" }
+func isContainerTag(t string) bool { return t == "a" || t == "h" || t == "o" || t == "j" }
 
 // the kinds of the extended model (op fmtx)
-func isNewTag(t string) bool { return strings.Contains("vwynmztolq", t) }
+func isNewTag(t string) bool { return strings.Contains("vwynmztolqj", t) }
 
 // ---- format nodes: the harness-side twin of a px.Format tree ------------------------------------------------------
 
@@ -465,8 +482,8 @@ func keyType(k string) px.Type {
 
 // which value kinds a parameterless key type accepts (Go twin of the model's `Key.accepts`)
 var keyAccepts = map[string]string{
-	"any": "ifsbudxrahvwynmztolq", "scalar": "ifsbrvnm", "numeric": "if", "int": "i", "float": "f", "str": "s", "bool": "b",
-	"bin": "x", "arr": "a", "hash": "h", "coll": "ah", "undef": "u", "dflt": "d", "regexp": "r", "object": "o", "type": "tlq",
+	"any": "ifsbudxrahvwynmztolqj", "scalar": "ifsbrvnm", "numeric": "if", "int": "i", "float": "f", "str": "s", "bool": "b",
+	"bin": "x", "arr": "a", "hash": "h", "coll": "ah", "undef": "u", "dflt": "d", "regexp": "r", "object": "o", "type": "tlqj",
 	"semver": "v", "semverrange": "w", "uri": "y", "timespan": "n", "timestamp": "m", "sensitive": "z",
 }
 
@@ -504,7 +521,7 @@ func kindKey(tag string) string {
 		return "timestamp"
 	case "z":
 		return "sensitive"
-	case "t", "l", "q":
+	case "t", "l", "q", "j":
 		return "type"
 	case "o":
 		return "object"
@@ -633,6 +650,7 @@ func formatMapValue(m []entry) *types.Hash {
 type fctx struct {
 	mode  string // kind self new map mmap
 	typed bool   // tmap / tmmap: keys are type terms
+	expanded bool // xkind / xmap: the context carries the property expanded
 	top   *node  // the single directive of kind/self/new
 	m     []entry
 }
@@ -652,6 +670,16 @@ func ctxOf(e sx.Sexp, tag string, v px.Value) *fctx {
 	case "tmap", "tmmap":
 		c.mode = c.mode[1:]
 		c.typed = true
+		c.m = entriesOf(e.Args())
+	case "xkind":
+		c.mode = "kind"
+		c.expanded = true
+		c.top = newNode(e.Args()[0].MustStr())
+		k := kindKey(tag)
+		c.m = []entry{{key: k, typ: keyType(k), n: c.top}}
+	case "xmap":
+		c.mode = "map"
+		c.expanded = true
 		c.m = entriesOf(e.Args())
 	default:
 		panic("bad ctx " + e.String())
@@ -736,7 +764,7 @@ func textOut(s string) string { return "text " + sx.Str(s).Atom }
 
 func renderMap(c px.Context, v px.Value, m []entry, level int) string {
 	return deadline(func() string {
-		return textOut(px.ToString2(v, px.NewFormatContext2(indentAt(level), pxMap(m), nil)))
+		return textOut(px.ToString2(v, px.NewFormatContext2(indentAt(level), pxMap(m), curProps)))
 	})
 }
 
@@ -784,11 +812,11 @@ func renderTop(c px.Context, fc *fctx, tag string, v px.Value) string {
 	switch fc.mode {
 	case "kind":
 		return deadline(func() string {
-			return textOut(px.ToString2(v, px.NewFormatContext(keyType(kindKey(tag)), px.NewFormat(fc.top.d.raw), px.NewIndentation(false, 0))))
+			return textOut(px.ToString2(v, newCtx1(keyType(kindKey(tag)), px.NewFormat(fc.top.d.raw), px.NewIndentation(false, 0))))
 		})
 	case "self":
 		return deadline(func() string {
-			return textOut(px.ToString2(v, px.NewFormatContext(v.PType(), px.NewFormat(fc.top.d.raw), px.NewIndentation(false, 0))))
+			return textOut(px.ToString2(v, newCtx1(v.PType(), px.NewFormat(fc.top.d.raw), px.NewIndentation(false, 0))))
 		})
 	case "new":
 		return deadline(func() string {
@@ -1048,6 +1076,9 @@ func expect(c px.Context, e sx.Sexp, v px.Value, m []entry, level int, entryMode
 // first: the value is rendered with an indentation whose IsFirst() holds (the key or value of a hash entry; an element of an
 // array gets Subsequent()) — it matters to a Type, whose parameter list breaks the line under an alt Array format unless first
 func expect2(c px.Context, e sx.Sexp, v px.Value, m []entry, level int, entryMode bool, first bool) (string, bool) {
+	if e.Tag() == "j" {
+		return "", false // an expanded object type is not decomposed by this predicate
+	}
 	if !entryMode && e.Tag() == "o" && e.Args()[0].MustStr() == "" {
 		// an instance of an anonymous object type is written as the Hash of its init hash
 		return expect2(c, sx.T("h", e.Args()[1:]...), v.(px.PuppetObject).InitHash().(*types.Hash), m, level, false, first)
@@ -1059,7 +1090,7 @@ func expect2(c px.Context, e sx.Sexp, v px.Value, m []entry, level int, entryMod
 			if first {
 				ind = px.NewIndentation(false, level)
 			}
-			return textOut(px.ToString2(v, px.NewFormatContext2(ind, pxMap(m), nil)))
+			return textOut(px.ToString2(v, px.NewFormatContext2(ind, pxMap(m), curProps)))
 		})
 		return out, out != "timeout" && out != "fault"
 	}
@@ -1309,6 +1340,10 @@ func exec(c px.Context, op string, args []sx.Sexp) core.Result {
 		return core.Result{Out: "payload-mismatch", Pred: "FAIL payload-mismatch " + oneLine(why)}
 	}
 	fc := ctxOf(args[0], tag, v)
+	curProps = nil
+	if fc.expanded {
+		curProps = map[string]string{"expanded": "true"}
+	}
 	if why := keyPayloadMismatch(fc.m); why != "" {
 		return core.Result{Out: "payload-mismatch", Pred: "FAIL payload-mismatch " + oneLine(why)}
 	}
@@ -1544,6 +1579,27 @@ func payloadMismatch(e sx.Sexp, v px.Value) string {
 		if !ok || t.Name() != a[1].MustStr() || t.ResolvedType().Name() != a[2].Args()[1].MustStr() {
 			return fmt.Sprintf("alias %s: not an alias of that name and resolved type", a[0].MustStr())
 		}
+	case "j":
+		t, ok := v.(px.ObjectType)
+		if !ok || t.Equals(types.DefaultObjectType(), nil) != a[1].MustBool() {
+			return fmt.Sprintf("object type %s: not an object type / the default Object flag is wrong", a[0].MustStr())
+		}
+		if !a[1].MustBool() {
+			ih := t.(px.PuppetObject).InitHash().(*types.Hash)
+			if ih.Len() != len(a)-2 {
+				return fmt.Sprintf("object type %s: %d init entries", a[0].MustStr(), ih.Len())
+			}
+			why := ""
+			idx := 0
+			ih.EachPair(func(k, x px.Value) {
+				kv := a[idx+2]
+				idx++
+				if why == "" && (k.String() != kv.List[0].MustStr() || !sameValue(x, valOf(kv.List[1]))) {
+					why = fmt.Sprintf("object type %s: init entry %d is %s => %s", a[0].MustStr(), idx-1, k.String(), x.String())
+				}
+			})
+			return why
+		}
 	case "q":
 		t, ok := v.(px.ObjectType)
 		if !ok || t.Name() != a[1].MustStr() {
@@ -1695,8 +1751,8 @@ func kindsIn(e sx.Sexp, into map[byte]bool) {
 			kindsIn(kv.List[0], into)
 			kindsIn(kv.List[1], into)
 		}
-	case "q":
-		// an anonymous object type formats the values of its init hash
+	case "q", "j":
+		// an anonymous / expanded object type formats the values of its init hash
 		for _, kv := range e.Args()[2:] {
 			kindsIn(kv.List[1], into)
 		}
